@@ -82,7 +82,8 @@ def gen_signal(rng, name, nbytes, used, o):
             s["values"] = {str(k): rng.choice(["On", "Off", "Error state", "Init", "SNA"]) + str(i) for i, k in enumerate(keys)}
         if not is_float and rng.random() < 0.4:
             lo, hi = (-(1 << (size - 1)), (1 << (size - 1)) - 1) if signed else (0, (1 << size) - 1)
-            a_, b_ = sorted([rng.randint(lo, hi), rng.randint(lo, hi)])
+            # limits at the ends of the raw range and at raw 0 as well as inside (a limit of 0 is a limit like any other)
+            a_, b_ = sorted([rng.choice([lo, hi, 0, rng.randint(lo, hi), rng.randint(lo, hi)]), rng.choice([lo, hi, 0, rng.randint(lo, hi), rng.randint(lo, hi)])])
             f_, o_ = D(fac[0]), D(off[0])
             s["min"], s["max"] = str(a_ * f_ + o_), str(b_ * f_ + o_)
         return s
